@@ -22,7 +22,7 @@ RULE = ("(names) Hypothesis expression trees over a confusable vocabulary (names
         "malformed, equal up to spaces) x {parse, evaluator}, each sequence run in a forked child of a process that "
         "never parsed; every call's outcome (names, value, or error type+message) must equal the outcome of the same "
         "call made first in a pristine process and, for parse, on a freshly constructed MathParser. Non-trivial iff a "
-        "failing call precedes a succeeding one or a cache key repeats. (random) longer sequences (<= 40 calls incl. "
+        "failing call precedes a succeeding one or a cache key repeats. (history-inf) EXHAUSTIVE sequences of length <= 3 over 5 strings (three of them overflowing constants) x {evaluator, evaluator with allow_inf=True, parse}. (random) longer sequences (<= 40 calls incl. "
         "FormulaGrader calls) over generated strings. Distinct by spec hash.")
 ASSUMPTIONS = ["pool workers are forked from a parent that has imported the library but never parsed (the parser cache "
                "is empty after import); each history case runs in its own forked child, so cases do not see each other",
@@ -192,6 +192,9 @@ def do_event(op, s):
         if op == 'e':
             v, m = evaluator(s, dict(H_VARS), _h_funcs(), dict(H_SUFF), max_array_dim=2)
             return ('ok', repr(v), sorted(m.variables_used), sorted(m.functions_used), sorted(m.suffixes_used))
+        if op == 'i':    # evaluation that tolerates infinities
+            v, m = evaluator(s, dict(H_VARS), _h_funcs(), dict(H_SUFF), max_array_dim=2, allow_inf=True)
+            return ('ok', repr(v), sorted(m.variables_used), sorted(m.functions_used), sorted(m.suffixes_used))
         if op == 'g':
             set_seed(1)
             g = FormulaGrader(answers='x+y', variables=['x', 'y', 'z'], user_functions={'f': lambda a: a * 2},
@@ -278,6 +281,20 @@ def judge_history(spec, rec):
     return judge_sequence([EVENTS[i] for i in spec['seq']], rec, 'history')
 
 
+# the same string evaluated with and without allow_inf (a memoised value must not leak across the option)
+INF_EVENTS = [(op, s) for op in 'eip' for s in ['1e999', '1e308*10', '[1, 1e999]', 'x+y', '2']]
+
+
+def items_history_inf(tier):
+    for L in range(1, 4):
+        for seq in itertools.product(range(len(INF_EVENTS)), repeat=L):
+            yield {'seq': list(seq)}
+
+
+def judge_history_inf(spec, rec):
+    return judge_sequence([INF_EVENTS[i] for i in spec['seq']], rec, 'history')
+
+
 # random longer sequences over generated strings
 
 
@@ -291,7 +308,8 @@ def strat_random(tier):
     pool = st.lists(st.one_of(valid, valid, broken, cased, st.sampled_from(ALPHABET)), min_size=2, max_size=8).map(
         lambda l: l + [l[0].upper(), l[0].lower()])
     return pool.flatmap(lambda strs: st.lists(
-        st.tuples(st.sampled_from(['p', 'e', 'e', 'g']), st.sampled_from(strs)).map(list), min_size=4, max_size=40)
+        st.tuples(st.sampled_from(['p', 'e', 'e', 'g', 'i']), st.sampled_from(strs + ['1e999', '2e308+1'])).map(list),
+        min_size=4, max_size=40)
     ).map(lambda ev: {'events': ev})
 
 
@@ -309,5 +327,6 @@ def judge_random(spec, rec):
 PARTS = [
     Part('names', 'hyp', judge_names, strategy=strat_names, budget={'quick': 5000, 'thorough': 100000}),
     Part('history', 'enum', judge_history, items=items_history, exhaustive=True),
+    Part('history-inf', 'enum', judge_history_inf, items=items_history_inf, exhaustive=True),
     Part('random', 'hyp', judge_random, strategy=strat_random, budget={'quick': 400, 'thorough': 8000}),
 ]
